@@ -783,6 +783,167 @@ fn platt_svm(a: &Args, rep: &mut Rep) -> Result<(), String> {
     platt_run("platt_svm", a, rep, &x, y.mapv(|c| c == 1), inner, pool)
 }
 
+
+// ============================ exact decision-boundary instances ============================
+// Pool rows whose decision value is EXACTLY on the threshold / tie of the model (checked at run
+// time, counted as `rows_exactly_on_decision_boundary`). Labels are compared exactly (no margin):
+// the data are small integers / the boundary is set from the model's own value, so no calling form
+// has any rounding freedom; what differs between `>=` and `>`, or between two tie-break rules in
+// two forms, is visible here and nowhere else.
+
+fn note_boundary(rep: &mut Rep, kind: &str, inst: usize, exact: usize, wanted: usize) {
+    rep.bump("rows_exactly_on_decision_boundary", exact as u64);
+    rep.bump(&format!("boundary_rows_{}", kind), exact as u64);
+    if exact < wanted {
+        rep.bump(&format!("boundary_construction_not_exact_{}#{}", kind, inst), (wanted - exact) as u64);
+    }
+}
+
+fn svm_bool_linear_on_hyperplane(a: &Args, rep: &mut Rep) -> Result<(), String> {
+    use linfa_svm::Svm;
+    // point-symmetric integer data: rho == 0 and a hyperplane x0 + x1 = 0 through the origin
+    let half: Vec<Vec<f64>> = match a.instance % 3 {
+        0 => vec![vec![1., 1.], vec![2., 2.], vec![1., 2.]],
+        1 => vec![vec![2., 1.], vec![1., 2.], vec![3., 3.]],
+        _ => vec![vec![1., 1., 0.], vec![2., 2., 0.], vec![1., 2., 0.]],
+    };
+    let p = half[0].len();
+    let mut rows = half.clone();
+    rows.extend(half.iter().map(|r| r.iter().map(|v| -v).collect::<Vec<f64>>()));
+    let x = Array2::from_shape_fn((6, p), |(i, j)| rows[i][j]);
+    let y = Array1::from_shape_fn(6, |i| i < 3);
+    let m = Svm::<f64, bool>::params().pos_neg_weights(1.0, 1.0).linear_kernel().fit(&Dataset::new(x, y)).map_err(e)?;
+    let ext = |v: Vec<f64>| -> Vec<f64> {
+        let mut v = v;
+        if p == 3 {
+            v.push(5.0);
+        }
+        v
+    };
+    // three rows on the hyperplane (one duplicated), two ordinary rows
+    let pool = vec![ext(vec![0., 0.]), ext(vec![1., -1.]), ext(vec![0., 0.]), ext(vec![-2., 2.]), ext(vec![3., 1.]), ext(vec![-3., 1.])];
+    let exact = if m.rho == 0.0 { pool.iter().filter(|r| m.weighted_sum(&Array1::from(r.to_vec())) - m.rho == 0.0).count() } else { 0 };
+    note_boundary(rep, "svm_bool_linear_on_hyperplane", a.instance, exact, 4);
+    let store = build_store(&pool, a.max_len, &a.only);
+    let mut sp = spec("svm_bool_linear_on_hyperplane", a, &pool);
+    sp.row_form = Some(Box::new(|v| Cell::U(Predict::<ArrayView1<f64>, bool>::predict(&m, v) as u64)));
+    sweep::<Array1<bool>, _, _>(&sp, &m, Some(&m), &store, None, rep);
+    // the owned 1-D form as well
+    for (q, r) in pool.iter().enumerate() {
+        let owned: bool = Predict::<Array1<f64>, bool>::predict(&m, Array1::from(r.clone()));
+        let one: Array1<bool> = m.predict(&Array2::from_shape_vec((1, p), r.clone()).unwrap());
+        rep.evals += 1;
+        rep.bump("calls_form_single_observation_owned", 1);
+        if owned != one[0] {
+            rep.push(lvmc_core::Violation::new(
+                "svm_bool_linear_on_hyperplane.single_observation.differs_from_one_row_batch",
+                format!("svm_bool_linear_on_hyperplane: the owned 1-D form on pool row {} = {:?} (decision value {:e}) gives {}, the same row as a 1 x p batch gives {}", q, r, m.weighted_sum(&Array1::from(r.clone())) - m.rho, owned, one[0]),
+                lvmc_core::json!({"entry": "svm_bool_linear_on_hyperplane", "instance": a.instance, "max_len": a.max_len,
+                    "only": {"sel": [q], "layout": "row_owned", "form": "single_observation"}, "batch_rows": [r], "expected": one[0], "observed": owned}),
+            ));
+        }
+    }
+    Ok(())
+}
+
+fn svm_one_class_on_boundary(a: &Args, rep: &mut Rep) -> Result<(), String> {
+    use linfa_svm::Svm;
+    let (x, _) = blobs(60, 2, 1, 471 + a.instance as u64);
+    let ds = Dataset::new(x.clone(), Array1::from_elem(60, ()));
+    let mut m = Svm::<f64, Pr>::params().gaussian_kernel(3.0).nu_weight(0.2).fit(&ds).map_err(e)?;
+    let pool = pool_from(&x, extreme(2));
+    // `rho` is a public field: put the threshold exactly on the decision value of the off-data pool row
+    // (instance 1: of a training row, instance 2: of the far row whose kernel values underflow)
+    let on = [3usize, 1, 4][a.instance % 3];
+    m.rho = m.weighted_sum(&Array1::from(pool[on].clone()));
+    let exact = pool.iter().filter(|r| m.weighted_sum(&Array1::from(r.to_vec())) - m.rho == 0.0).count();
+    note_boundary(rep, "svm_one_class_on_boundary", a.instance, exact, 1);
+    let store = build_store(&pool, a.max_len, &a.only);
+    let mut sp = spec("svm_one_class_on_boundary", a, &pool);
+    sp.row_form = Some(Box::new(|v| Cell::U(Predict::<ArrayView1<f64>, bool>::predict(&m, v) as u64)));
+    sweep::<Array1<bool>, _, _>(&sp, &m, Some(&m), &store, None, rep);
+    Ok(())
+}
+
+fn logistic_binary_threshold_on_row(a: &Args, rep: &mut Rep) -> Result<(), String> {
+    use linfa_logistic::LogisticRegression;
+    let (x, y) = blobs(120, 2, 2, 481 + a.instance as u64);
+    let ds = Dataset::new(x.clone(), y.mapv(|c| c == 1));
+    let m = LogisticRegression::default().alpha(0.5).max_iterations(200).fit(&ds).map_err(e)?;
+    let pool = pool_from(&x, extreme(2));
+    // threshold := the model's own probability of one pool row (off-data / training / duplicate row)
+    let on = [3usize, 1, 0][a.instance % 3];
+    let prob = |m: &linfa_logistic::FittedLogisticRegression<f64, bool>, r: &Vec<f64>| m.predict_probabilities(&Array2::from_shape_vec((1, 2), r.clone()).unwrap())[0];
+    let thr = prob(&m, &pool[on]);
+    let m = m.set_threshold(thr);
+    let exact = pool.iter().filter(|r| prob(&m, r) == thr).count();
+    note_boundary(rep, "logistic_binary_threshold_on_row", a.instance, exact, 1);
+    let store = build_store(&pool, a.max_len, &a.only);
+    let sp = spec("logistic_binary_threshold_on_row", a, &pool);
+    sweep::<Array1<bool>, _, _>(&sp, &m, Some(&m), &store, None, rep);
+    Ok(())
+}
+
+fn kmeans_equidistant_row(a: &Args, rep: &mut Rep) -> Result<(), String> {
+    use linfa_clustering::{KMeans, KMeansInit};
+    // two mirrored integer clusters: the centroids are exactly (-c, 0) and (c, 0)
+    let c = [2.0, 3.0, 5.0][a.instance % 3];
+    let left = [[-c - 1.0, 0.0], [-c + 1.0, 0.0], [-c, 1.0], [-c, -1.0]];
+    let mut rows: Vec<[f64; 2]> = left.to_vec();
+    rows.extend(left.iter().map(|r| [-r[0], r[1]]));
+    let x = Array2::from_shape_fn((8, 2), |(i, j)| rows[i][j]);
+    let init = ndarray::array![[-c, 0.0], [c, 0.0]];
+    let m = KMeans::params_with_rng(2, rng(9)).init_method(KMeansInit::Precomputed(init)).n_runs(1).max_n_iterations(10).fit(&Dataset::from(x.clone())).map_err(e)?;
+    // rows on the perpendicular bisector x0 = 0 (one duplicated), two ordinary rows
+    let pool = vec![vec![0.0, 0.0], vec![0.0, 7.0], vec![0.0, 0.0], vec![0.0, -2.5], vec![-1.0, 4.0], vec![c, 1.0]];
+    let cent = m.centroids().clone();
+    let d2 = |r: &Vec<f64>, k: usize| -> f64 { (0..2).map(|j| (r[j] - cent[(k, j)]) * (r[j] - cent[(k, j)])).sum() };
+    let exact = pool.iter().filter(|r| d2(r, 0) == d2(r, 1)).count();
+    note_boundary(rep, "kmeans_equidistant_row", a.instance, exact, 4);
+    let store = build_store(&pool, a.max_len, &a.only);
+    let mut sp = spec("kmeans_equidistant_row", a, &pool);
+    sp.wrong_len_msg = "The number of data points must match the number of memberships.";
+    sp.row_form = Some(Box::new(|v| Cell::U(Predict::<&ArrayView1<f64>, usize>::predict(&m, &v) as u64)));
+    sweep::<Array1<usize>, _, _>(&sp, &m, Some(&m), &store, None, rep);
+    Ok(())
+}
+
+fn decision_tree_row_on_split_threshold(a: &Args, rep: &mut Rep) -> Result<(), String> {
+    use linfa_trees::DecisionTree;
+    let (x, y) = blobs(150, 3, 3, 491 + a.instance as u64);
+    let ds = Dataset::new(x.clone(), y);
+    let m = DecisionTree::params().max_depth(Some([4, 2, 8][a.instance % 3])).fit(&ds).map_err(e)?;
+    let mut pool = pool_from(&x, extreme(3));
+    // rows whose tested feature equals a split value exactly: at the root, and at the node the
+    // root sends such a row to (`<` goes left, so equality goes right)
+    let root = m.root_node();
+    let (f0, v0, _) = root.split();
+    let mut exact = 0;
+    if !root.is_leaf() {
+        pool[3][f0] = v0;
+        exact += 1;
+        pool[2] = pool[3].clone(); // duplicate of the boundary row
+        exact += 1;
+        if let Some(Some(right)) = root.children().get(1).map(|c| c.as_ref()) {
+            if !right.is_leaf() {
+                let (f1, v1, _) = right.split();
+                let mut r = pool[5].clone();
+                r[f0] = v0;
+                r[f1] = v1;
+                if r[f0] == v0 {
+                    pool[5] = r;
+                    exact += 1;
+                }
+            }
+        }
+    }
+    note_boundary(rep, "decision_tree_row_on_split_threshold", a.instance, exact, 2);
+    let store = build_store(&pool, a.max_len, &a.only);
+    let sp = spec("decision_tree_row_on_split_threshold", a, &pool);
+    sweep::<Array1<usize>, _, _>(&sp, &m, Some(&m), &store, None, rep);
+    Ok(())
+}
+
 pub fn registry() -> Vec<Entry> {
     macro_rules! ent {
         ($($f:ident),* $(,)?) => { vec![$(Entry { name: stringify!($f), run: $f }),*] };
@@ -794,5 +955,7 @@ pub fn registry() -> Vec<Entry> {
         svm_c_bool_gaussian, svm_bool_linear_poly, svm_probability, svm_regression_linear, svm_regression_gaussian, svm_one_class,
         decision_tree, gaussian_nb, multinomial_nb, ftrl, pca, fast_ica,
         multi_target_model, multi_class_model, platt_linear_scorer, platt_svm,
+        svm_bool_linear_on_hyperplane, svm_one_class_on_boundary, logistic_binary_threshold_on_row, kmeans_equidistant_row,
+        decision_tree_row_on_split_threshold,
     ]
 }
